@@ -138,7 +138,7 @@ Section WithCodec.
     (if has (h_Flags h) HeaderFlagWarning
      then msg_is_response (bd_Message b) = true /\ 4 <= h_Version h /\
           exists l, bd_Warnings b = Some l /\ string_list_ok l
-     else bd_Warnings b = None) /\
+     else olist (bd_Warnings b) = []) /\
     msg_ok (h_Version h) (bd_Message b).
 
   Definition frame_ok (f : Frame) : Prop :=
@@ -149,9 +149,11 @@ Section WithCodec.
     h_OpCode h = msg_opcode (bd_Message b) /\
     body_ok h b.
 
-  Definition norm_body (v : Z) (b : Body) : Body :=
-    {| bd_TracingId := bd_TracingId b; bd_CustomPayload := bd_CustomPayload b; bd_Warnings := bd_Warnings b;
-       bd_Message := msg_norm v (bd_Message b) |}.
+  (* what the wire carries: the message in normal form; an empty, unflagged warning list is nil *)
+  Definition norm_body (h : Header) (b : Body) : Body :=
+    {| bd_TracingId := bd_TracingId b; bd_CustomPayload := bd_CustomPayload b;
+       bd_Warnings := (if has (h_Flags h) HeaderFlagWarning then bd_Warnings b else None);
+       bd_Message := msg_norm (h_Version h) (bd_Message b) |}.
 
   (* the bytes of an uncompressed body, given the bytes of the message *)
   Definition body_bytes (h : Header) (b : Body) (mb : bytes) : bytes :=
@@ -180,7 +182,7 @@ Section WithCodec.
   Lemma decode_body_parts_app h b mb rest :
     supported (h_Version h) -> h_IsResponse h = msg_is_response (bd_Message b) -> h_OpCode h = msg_opcode (bd_Message b) ->
     body_ok h b -> mc_encode mc (h_Version h) (bd_Message b) = Ok mb ->
-    decode_body_parts mc h (body_bytes h b mb ++ rest) = DOk (norm_body (h_Version h) b) rest.
+    decode_body_parts mc h (body_bytes h b mb ++ rest) = DOk (norm_body h b) rest.
   Proof.
     intros Hsup Hresp Hop (Ht & Hp & Hw & Hm) Hmb. unfold decode_body_parts, body_bytes. rewrite <- !app_assoc.
     destruct (H_rt _ _ Hsup Hm) as (mb' & Hmb' & Hdec). assert (mb' = mb) by congruence. subst mb'.
@@ -209,11 +211,11 @@ Section WithCodec.
     rewrite E2. unfold bind at 1.
     assert (E3 : (if msg_is_response (bd_Message b) && has (h_Flags h) HeaderFlagWarning then rmap Some read_string_list else ret None)
                  ((if has (h_Flags h) HeaderFlagWarning then enc_string_list (olist (bd_Warnings b)) else []) ++ mb ++ rest)
-                 = DOk (bd_Warnings b) (mb ++ rest)).
+                 = DOk (if has (h_Flags h) HeaderFlagWarning then bd_Warnings b else None) (mb ++ rest)).
     { destruct (has (h_Flags h) HeaderFlagWarning).
       - destruct Hw as (Hr & Hv & l & -> & Hl1 & Hl2). rewrite Hr. cbn [andb olist]. unfold rmap, bind.
         rewrite read_string_list_app by assumption. reflexivity.
-      - rewrite Hw, andb_false_r. reflexivity. }
+      - rewrite andb_false_r. reflexivity. }
     rewrite E3. unfold bind at 1. rewrite Hop, Hdec. reflexivity.
   Qed.
 
@@ -262,7 +264,7 @@ Section WithCodec.
     encode_frame mc comp f = Ok (encoded_plain f mb) /\
     forall rest, decode_frame mc comp (encoded_plain f mb ++ rest) =
       DOk {| f_Header := with_body_length (f_Header f) (zlen (body_bytes (f_Header f) (f_Body f) mb));
-             f_Body := norm_body (h_Version (f_Header f)) (f_Body f) |} rest.
+             f_Body := norm_body (f_Header f) (f_Body f) |} rest.
   Proof.
     intros Hok Hnc Hmb Hsmall. pose proof Hok as (Hv & Hf & Hs & Hr & Hop & Hb).
     set (h := f_Header f) in *. set (b := f_Body f) in *. set (n := zlen (body_bytes h b mb)) in *.
@@ -293,7 +295,7 @@ Section WithCodec.
     encode_frame mc (Some c) f = Ok (hdr_bytes (with_body_length (f_Header f) (zlen y)) ++ y) /\
     forall rest, decode_frame mc (Some c) ((hdr_bytes (with_body_length (f_Header f) (zlen y)) ++ y) ++ rest) =
       DOk {| f_Header := with_body_length (f_Header f) (zlen y);
-             f_Body := norm_body (h_Version (f_Header f)) (f_Body f) |} rest.
+             f_Body := norm_body (f_Header f) (f_Body f) |} rest.
   Proof.
     intros Hok Hc Hloss Hmb Hy Hsmall. pose proof Hok as (Hv & Hf & Hs & Hr & Hop & Hb).
     set (h := f_Header f) in *. set (b := f_Body f) in *.
